@@ -156,8 +156,8 @@ def c11b(prog, R):
     r.floor(9)
 
 
-def c11c(prog, R):
-    r = R.rule("C11.c", "hash-index writer and reader agree on the bucket; reader outcomes are mapped safely", "W,B")
+def c11c(prog, R, rid="C11.c"):
+    r = R.rule(rid, "hash-index writer and reader agree on the bucket; reader outcomes are mapped safely", "W,B")
     CB = "table::block::hash_index::calculate_bucket_position"
     w = prog.hir.get("table::block::hash_index::builder::Builder::set")
     rd = prog.hir.get("table::block::hash_index::reader::Reader::<'a>::get")
@@ -196,7 +196,30 @@ def c11c(prog, R):
         any(n.get("k") == "mcall" and n.get("m") == "get" and "get_binary_index_reader()" in hir_expr_str(n["r"]) for n in hir_walk(other[0]))
     r.check(ok_free and ok_conf and ok_idx, "DataBlock::point_read|FREE -> absent, CONFLICT -> binary search, idx -> seek_to_offset(binary_index[idx])",
             "the hash-index outcome mapping changed (a present key could be reported absent)", "", str(sorted(arms)))
-    # marker constants distinct
-    vals = {}
-    f = prog.fn("table::data_block::DataBlock::point_read")
-    r.floor(5)
+    hash_index_coverage(prog, r)
+    r.floor(7)
+
+
+def hash_index_coverage(prog, r):
+    """A stored hash index covers every key of its block.  The reader maps a FREE bucket to `absent`, so a block whose
+    restart points do not all fit the u8 pointer space must not store a hash index at all: the encoder registers a key
+    only while restart_idx < MAX_POINTERS_FOR_HASH_INDEX, and the trailer stores the index only when
+    binary_index_len <= MAX_POINTERS_FOR_HASH_INDEX (two cooperating sites)."""
+    enc = next((v for k, v in prog.hir.items() if k.startswith("table::block::encoder::Encoder") and k.endswith("::write")), None)
+    tr = next((v for k, v in prog.hir.items() if k.startswith("table::block::trailer::Trailer") and k.endswith("::write")), None)
+    if not enc or not tr:
+        r.anchor_missing("Encoder::write / Trailer::write")
+        return
+    sets = hir_sites(enc["body"], lambda n: n.get("k") == "mcall" and n.get("m") == "set" and "hash_index_builder" in hir_expr_str(n["r"]))
+    M = "table::block::hash_index::builder::MAX_POINTERS_FOR_HASH_INDEX"
+    lim = [g for s in sets for g in s.guard_texts() if "MAX_POINTERS_FOR_HASH_INDEX" in g]
+    ok_enc = bool(sets) and all(any(g == "(restart_idx < %s)" % M for g in s.guard_texts()) for s in sets)
+    r.check(ok_enc, "Encoder::write|keys are registered in the hash index while restart_idx < MAX_POINTERS",
+            "registration guard changed: %s" % lim, "", str(lim))
+    stores = hir_sites(tr["body"], lambda n: n.get("k") == "mcall" and n.get("m") == "write" and "hash_index_builder" in hir_expr_str(n["r"]))
+    ok_tr = bool(stores) and all(any(g == "(binary_index_len <= %s)" % M for g in s.guard_texts()) and
+                                 any("bucket_count() > 0" in g for g in s.guard_texts()) for s in stores)
+    r.check(ok_tr, "Trailer::write|hash index stored only if all restart points fit (binary_index_len <= MAX_POINTERS)",
+            "the hash index is stored although keys beyond restart point %s were never registered in it: the reader answers "
+            "`absent` for them (FREE bucket) and older versions resurface" % "MAX_POINTERS_FOR_HASH_INDEX", "",
+            str([s.guard_texts() for s in stores]))
